@@ -116,6 +116,9 @@ def run(tier):
     chk.cov["trace_runs"].append({"module": "VecNormTrace", "files": 1, "records": sum((r_["accepted"] or 0) for r_ in vres), "rejected": vbad,
                                   "what": "scalar bindings of length / length2 / dot and the six normalisation forms of V2/V3/V4 in float and double (zero, axis, generic, huge, tiny and subnormal vectors) against C08/C07's relations"})
     vlib.log("[C20] trace VecNormTrace: %d records, %d rejected (scalar bindings of the normalisation forms)" % (sum((r_["accepted"] or 0) for r_ in vres), vbad))
+    ivp = vlib.run_to_file([py["python"], drv, so, sp, "@invert", str(vlib.SEED), tier], os.path.join(chk.work, "scalar-invert.ndjson"), timeout=1800, env=e2)
+    ifiles, _ = vlib.split_file(ivp, 8, chk.work, "scalarinv")
+    chk.traces("InvertTrace", ifiles, what="scalar bindings of inverse / invert / gjInverse / gjInvert (singExc = False) for M22/M33/M44 in float and double: integer, full-precision, affine and exactly singular matrices, against C06's specification (true inverse, identity for singular input, in-place = returning)", episodes=1)
     combos = 0
     for f in files:
         combos += sum(1 for line in open(f) if line.startswith('{"e": "ref"'))
